@@ -31,6 +31,7 @@ type memFile struct {
 
 type faultFS struct {
 	files   []memFile // insertion order, like the model's association list
+	dirs    []string
 	n       int
 	sched   map[int]string
 	trace   []string
@@ -152,6 +153,11 @@ func parseFS(w []string) (*faultFS, []string) {
 	for i := 0; i < n; i++ {
 		p, d := unhex(w[0]), unhex(w[1])
 		w = w[2:]
+		if strings.HasSuffix(p, "/") {
+			// a directory that must exist in real mode; not a file
+			fs.dirs = append(fs.dirs, p)
+			continue
+		}
 		if _, ok := fs.lookup(p); !ok {
 			fs.files = append(fs.files, memFile{p, []byte(d)})
 			fs.orig[p] = d
